@@ -146,6 +146,21 @@ def run(ctx):
     texts = ["".join(rng.choice(noise_alpha) for _ in range(rng.choice([1, 2, 3, 5, 8, 13, 40]))) for _ in range(2000 if quick else 50000)]
     ctx.rule("%d random character strings over %r" % (len(texts), noise_alpha))
     check_batch(ctx, texts, "noise")
+    # size extremes: directive arguments, literals and identifiers far beyond everyday lengths
+    texts = []
+    for n in (1, 9, 19, 20, 400, 4300, 4301):
+        for d in ("1", "9"):
+            num = d * n
+            small = d * min(n, 400)
+            texts += ["#line %s\nint x;\n" % num, "# %s \"g.h\" 1\nint x;\n" % num, "int a;\n#line %s" % num,
+                      "# 1 \"g.h\" %s\nint x;" % num, "#line %s \"g.h\"\nint x = @;" % num, "#line %suL\nint x;" % num,
+                      "int x = %s;" % small, "int x = 0x%s;" % small, "int x = 0%s;" % ("7" * min(n, 400)), "double d = %s.%se%s;" % (small, small, small),
+                      "int a[%s];" % small, "struct S { int b : %s; };" % small, "enum E { A = %s };" % small,
+                      "int %s;" % ("v" * min(n, 400)), "char *s = \"%s\";" % ("s" * min(n, 400)), "char c = '\\x%s';" % ("f" * min(n, 400)),
+                      "char *s = \"%s\";" % ("\\\\" * min(n, 400)), "#pragma %s\nint x;" % ("p" * min(n, 400)), "int x = %s;" % ("-" * min(n, 400) + "1"),
+                      "int x %s" % ("@" * min(n, 400))]
+    ctx.rule("%d size-extreme inputs: #line / linemarker numbers, flags, integer / floating / character / string literals, identifiers, pragma text (directive numbers with 1..4301 digits, around CPython's 4300-digit int() limit; other literals up to 400 characters)" % len(texts))
+    check_batch(ctx, texts, "extremes")
 
 
 def replay(ctx, payload):
